@@ -298,4 +298,56 @@ theorem C17_while_tasks_witness :
       ((runSyncTasksOnly wfEmpty none [0, 1, 2] (fun _ => false) 20).2.ns.get 2).blk)
       = (SyncOutcome.success, [[0], [], []], none) := by decide
 
+/-! ### `rerun=True` under the debug worker without a limit: the results of a first run on an empty cache -/
+
+/-- C17 for `rerun=True`, synchronous loop, no `max_concurrent` limit: whatever results the cache and the readonly caches
+    held (successful or errored, from whatever earlier values), a successful submission returns the reference outputs
+    computed from THIS submission's body values — exactly what a first run on an empty cache returns (`C17_sync`).
+    (With a limit or an asynchronous worker the outputs may mix old and new values: finding D71,
+    `C15_rerun_cut_job_keeps_old_result`, `C15_rerun_stale_read_race`.) -/
+theorem C17_rerun_sync_unlimited {wf : Wf} {sorted : List NodeId} (hw : WellFormed wf sorted) (hac : Acyclic wf.g)
+    {r : NodeId → List Ck} (hrj : RefJobs wf r) (cfg : RCfg) (hr : cfg.rerun = true) (w0 : World) (fail : Ck → Bool)
+    (fuel : Nat) (hend : (runSyncR wf none sorted cfg w0 fail fuel).1 = .success) :
+    ∀ n, n ∈ wf.g.nodes → outputsR wf cfg (runSyncR wf none sorted cfg w0 fail fuel).2 n = (r n).map wf.body := by
+  have h0 : RSInv wf cfg (doPollR wf none sorted cfg (RSt.init w0)) :=
+    rsinv_doPollR hw.topo (rsinv_init wf cfg w0) (allE_init w0)
+  obtain ⟨_, _, c⟩ := syncLoopR_spec hw.topo hr fail fuel h0
+  obtain ⟨_, _, hout⟩ := C15_rerun_sync_unlimited hw cfg hr w0 fail fuel
+  have e : runSyncR wf none sorted cfg w0 fail fuel =
+      syncLoopR wf none sorted cfg fail fuel (doPollR wf none sorted cfg (RSt.init w0)) := rfl
+  rw [e] at hend hout ⊢
+  generalize syncLoopR wf none sorted cfg fail fuel (doPollR wf none sorted cfg (RSt.init w0)) = R at c hend hout ⊢
+  obtain ⟨hs, hall, hdone⟩ := c hend
+  intro n hn
+  rw [(hout hend n hn).2.2]
+  have hp : NInv wf (view cfg R.2.st.w) R.2.st.ns := ninv_plain hs.ninv hs.tab
+  -- no job failed in this submission, so no node is unrunnable
+  have hnofail : ∀ p, ¬ FailedNode { R.2.st with w := view cfg R.2.st.w } p := by
+    rintro p ⟨x, hx, he⟩
+    have hl := hp.loc p
+    have hx' : x ∈ (R.2.st.ns.get p).cks := hx
+    have he' : view cfg R.2.st.w x = .err := he
+    have hb : (R.2.st.ns.get p).blk ≠ none := by
+      intro hb; rw [hl.unstarted hb] at hx'; simp [NS.init] at hx'
+    cases hu : (R.2.st.ns.get p).unrunnable
+    · obtain ⟨i, hi, hci⟩ := mem_cks_ckAt hx'
+      have hmem := hall p i (hl.cover hb hu i hi)
+      rw [hci] at hmem
+      rw [view_of_ok cfg (hs.fresh x hmem)] at he'
+      exact absurd he' (by simp)
+    · rw [(hl.unrun hu).2.2.2.2] at hx'; simp at hx'
+  have hnodoom : ∀ m, ¬ Doomed wf { R.2.st with w := view cfg R.2.st.w } m := by
+    intro m hm
+    induction hm with
+    | direct _ hf => exact hnofail _ hf
+    | step _ _ ih => exact ih
+  have hl := hp.loc n
+  obtain ⟨hst, _, _, _⟩ := (isDone_iff _).mp (hdone n hn)
+  have hb := blk_of_started hl hst
+  have hu : (R.2.st.ns.get n).unrunnable = false := by
+    cases hx : (R.2.st.ns.get n).unrunnable
+    · rfl
+    · exact absurd (unrunnable_doomed (st := { R.2.st with w := view cfg R.2.st.w }) hp hw.wip hac n hx) (hnodoom n)
+  rw [jobs_are_reference hp hw.wip hac hrj n hb hu]
+
 end PydraModel.Sched
